@@ -286,6 +286,15 @@ def _c10_probe(st, target, sign, rng):
     elif form == "descending":
         tab["vi"] = tab["vi"][::-1]
         tab[key] = tab[key][::-1]
+    if form != "negaxis" and len(ys) == 2 and not ints and rng.random() < 0.35:
+        # a third vi row beyond the grid, the rows given in an order that is neither rising nor falling
+        y3 = vi_of(ys[-1] + 1)
+        row3 = [lo + (hi - lo) * rng.random() for _ in xs]
+        vis = [vi_of(y) for y in ys] + [y3]
+        rows = [[lo + (hi - lo) * v / max(fmax, 1) for v in r] for r in f] + [row3]
+        order = rng.choice([[1, 2, 0], [2, 0, 1], [1, 0, 2], [0, 2, 1]])
+        tab["vi"] = [vis[k] for k in order]
+        tab[key] = [rows[k] for k in order]
     # a mux is also probed through its second input (the first one dead)
     second = kind == "PMux" and rng.random() < 0.5
 
